@@ -166,7 +166,7 @@ class TokenParser(Parser):
         for name in names:
             if issubclass(base, Structure) and base.__anonymous__:
                 # An anonymous structure takes the first name it is given, without the pointer / array part of the declarator
-                identifier = self.TOK.patterns[self.TOK.NAME].match(name + ";").group("name").lstrip("* \t")
+                identifier = self.TOK.patterns[self.TOK.NAME].match(name + ";").group("name").lstrip("* \t\r\n\f\v")
                 base.__anonymous__ = False
                 base.__name__ = identifier
                 base.__qualname__ = identifier
